@@ -531,7 +531,22 @@ func genCall(r *rng, p Profile, rsShared int) Call {
 		if r.chance(0.4) {
 			src.Color = r.rangeIn(1, 5)
 		}
+		if r.chance(0.25) {
+			// a chain: the source is itself a Scale result
+			inner := genScale(r, p, src)
+			if r.chance(0.7) {
+				inner.I1 = r.rangeIn(30, 90)
+				inner.I2 = inner.I1
+				if src.Fn != "qr" && src.Fn != "dm" && src.Fn != "aztec" {
+					inner.I1, inner.I2 = r.rangeIn(100, 300), r.rangeIn(1, 20)
+				}
+			}
+			src = inner
+		}
 		c = genScale(r, p, src)
+		if c.Src.Fn == "scale" && r.chance(0.7) {
+			c.I1, c.I2 = c.Src.I1*r.rangeIn(1, 3)+r.intn(7), c.Src.I2*r.rangeIn(1, 3)+r.intn(5)
+		}
 	}
 	if c.Fn != "rs" && c.Fn != "addcs" && c.Fn != "scale" && r.chance(0.35) {
 		c.Color = r.rangeIn(1, 5)
